@@ -37,6 +37,12 @@ def run(ctx):
             exe = build.build_prog("c01", ["harness/c01.c", "harness/cpp_shim.cpp", "harness/sysrand.c", "ref/ref.c"], lib)
             for alg in range(3):
                 jobs.append((exe, [alg, "3", 24 if not ctx.thorough else 40, 0], "%s-k%dd%dm%d" % ((be,) + tr)))
+    # the C++ entries once more in the ASCON_NO_STL configuration (copy-on-write byte_array under the byte_array overloads)
+    nlib = build.build_lib("asm", no_stl=True)
+    ctx.configs.append(nlib["desc"] + " ASCON_NO_STL")
+    nexe = build.build_prog("c01", ["harness/c01.c", "harness/cpp_shim.cpp", "harness/sysrand.c", "ref/ref.c"], nlib, extra=["-DASCON_NO_STL"], cfg_dep=True)
+    for alg in range(3):
+        jobs.append((nexe, [alg, "3", 40, 0], "asm-nostl"))
     # longest first
     jobs.sort(key=lambda j: -int(j[1][2]) if str(j[1][2]).isdigit() else 0)
     common.parallel(lambda j: common.run_harness(ctx, j[0], j[1], label=j[2]), jobs)
